@@ -67,8 +67,8 @@ theorem eval_failure_untouched (gs : List Guard) (i : Input) (np : Nat)
 
 /-- Side condition under which no panic site of the prologue of `a` is
 reachable.  `True` for Rcb, Greedy, KarmarkarKarp and FiducciaMattheyses; the
-others are the findings listed in `Props/C20.lean` (each excluded input does
-panic: `*_panics` there). -/
+others are the observations listed in `Props/C20.lean` (each excluded input
+does panic: `*_panics` there); none of them is a violation the property lists. -/
 def PanicFree (a : Algo) (i : Input) : Prop :=
   match a with
   | .rcb | .greedy | .kk | .fm => True
@@ -76,8 +76,9 @@ def PanicFree (a : Algo) (i : Input) : Prop :=
   | .rib => i.obbOk = true
   -- `T::from_f64(sum * tolerance).unwrap()`; only reached with matching non-empty input
   | .ckk => i.tolOk = true ∨ i.weights.length ≠ i.parts.length ∨ i.weights.length = 0
-  -- `1 + max` is evaluated before anything else
-  | .vnBest | .vnFirst => maxId i.parts < usizeMax
+  -- `part_count` saturates at `usize::MAX`: with an id of `usize::MAX` and valid lengths
+  -- `compute_parts_load`'s `debug_assert!(max < num_parts)` fails
+  | .vnBest | .vnFirst => maxId i.parts < usizeMax ∨ i.weights.length ≠ i.parts.length
   -- `1 + max` is evaluated after the length checks and the empty shortcut
   | .arcSwap => maxId i.parts < usizeMax ∨ i.weights.length ≠ i.parts.length ∨ i.graph ≠ i.parts.length
   -- `index_fn_2d(points, ..)` unwraps the bounding box of the points: HilbertCurve validates no length
